@@ -39,9 +39,10 @@ theorem C06_no_downstream {cfg d s} (wf : WF d) (h : Reach cfg d s) (i j : Nat) 
   simp [hi] at this
   exact ⟨this, hi⟩
 
-/-- a failed node's output keeps its previous value (here: the value before the run, `NOT_DATA`) -/
+/-- a failed node's output keeps its previous value: the value it held when the run started
+(`d.out0 i`: `NOT_DATA` in a fresh graph, whatever an earlier run left otherwise) -/
 theorem C06_outputs_kept {cfg d s} (wf : WF d) (h : Reach cfg d s) (i : Nat) (hf : s.st i = .failed) :
-    s.out i = .nd :=
+    s.out i = d.out0 i :=
   (reach_inv wf h).core.valNot i (by simp [hf])
 
 /-- a node whose function raises is, once its job is over, marked failed (never "done"), exactly the
